@@ -7,7 +7,6 @@ import (
 
 	"go/types"
 	"golang.org/x/tools/go/ssa"
-	"strings"
 )
 
 func bytesOf(v value) []byte {
@@ -140,13 +139,32 @@ func init() {
 			return truth(cellsEq(cellsOf(args[0]), cellsOf(args[1])))
 		},
 		"internal/bytealg.Compare": func(fr *frame, args []value) value {
-			return bytes.Compare(bytesOf(args[0]), bytesOf(args[1]))
+			a, b := cellsOf(args[0]), cellsOf(args[1])
+			if !anySym(a) && !anySym(b) {
+				return bytes.Compare(bytesOf(a), bytesOf(b))
+			}
+			for i := 0; i < len(a) && i < len(b); i++ {
+				if truth(byteEq(a[i], b[i])) {
+					continue
+				}
+				if truth(symBinop(token.LSS, types.Typ[types.Uint8], a[i], b[i])) {
+					return -1
+				}
+				return 1
+			}
+			switch {
+			case len(a) < len(b):
+				return -1
+			case len(a) > len(b):
+				return 1
+			}
+			return 0
 		},
 		"internal/bytealg.LastIndexByte": func(fr *frame, args []value) value {
-			return bytes.LastIndexByte(bytesOf(args[0]), args[1].(byte))
+			return lastIndexByteCells(cellsOf(args[0]), args[1])
 		},
 		"internal/bytealg.LastIndexByteString": func(fr *frame, args []value) value {
-			return strings.LastIndexByte(args[0].(string), args[1].(byte))
+			return lastIndexByteCells(cellsOf(args[0]), args[1])
 		},
 		"(*sync.Mutex).Lock":      func(fr *frame, args []value) value { return nil },
 		"(*sync.Mutex).Unlock":    func(fr *frame, args []value) value { return nil },
